@@ -1,5 +1,5 @@
 ENGINES = [
- {"name": "tlc", "path": "lib/vlib.py", "serves_properties": ["C02", "C04", "C05", "C17"],
+ {"name": "tlc", "path": "lib/vlib.py", "serves_properties": ["C01", "C02", "C04", "C05", "C07", "C08", "C15", "C17"],
   "kind_free_text": "TLC model checking of the TLA+ specifications in spec/, and TLC validation (fold mode) of executions recorded from the real code by the harnesses in harness/"},
 ]
 NOTES = ("One orchestrator (bin/vcheck) per property. Specifications live in spec/ (Word, HexISA, ...); harnesses in harness/ are "
@@ -32,4 +32,26 @@ CHECKS = {
   "text": "Each --instrs / -S listing line (offset, size, shown operand) is checked by TLC against AsmLayout!Walk of the binary of the same "
           "source, for the C05 families, the shipped .S files and xcmp -S of tests/x.",
   "note": "Pure trace validation (states/transitions are nominal). The final 'N bytes' line is not judged (the property does not mention it)."},
+ "C01": {"level": "model_checking", "design_ref": "DESIGN.md 2.4, 5 (C01), Appendix C",
+  "technique": "XLang.tla (X definition as a small-step machine) executed by TLC on each generated program; compiled binaries' observable behaviour validated against it",
+  "text": "The oracle is a specification that is total over the property's domain: XLang decides definedness and the behaviour (writes per "
+          "channel, input consumed, exit value); xcmp+hexsim must reproduce it for the operator x leaf-kind x context enumeration, structural "
+          "templates and seeded random programs. Undefined programs are counted, never judged.",
+  "note": "Trusts the reading of xhexnotes.pdf in XLang.tla (DESIGN Appendix C) and the AST printer; bounded program size, fuel and depth."},
+ "C07": {"level": "model_checking", "design_ref": "DESIGN.md 5 (C07)",
+  "technique": "placement families (constant vs run-time operands) compiled and compared; XLang machine mode run by TLC defines domain and reference value",
+  "text": "All placements of one (expression tree, boundary valuation) must behave identically; depth-1 trees exhaustive over operators x "
+          "19x19 boundary values, deeper trees seeded; TLC validates every placement against XLang (wrap-around arithmetic).",
+  "note": "Agreement is the property; a family agreeing with itself but not with XLang is counted only. 32-bit operand space sampled at boundaries."},
+ "C08": {"level": "model_checking", "design_ref": "DESIGN.md 5 (C08)",
+  "technique": "TLC executes each compiled image under HexISA with region/stack invariants evaluated at every instruction (IsaRegionV)",
+  "text": "For programs XLang deems defined, every fetch/load/store address, the store regions (image DATA words or free memory above the "
+          "image, never a fetched word), SP <= load-time value and SP restored at main's return are checked on the HexISA run of the image.",
+  "note": "DATA words / exit stub address come from the -S listing (C17 cross-checks it). Stack-budget overflow is outside the domain."},
+ "C15": {"level": "model_checking", "design_ref": "DESIGN.md 5 (C15)",
+  "technique": "TLC validation of hexsim -t lines and the binary's symbol table against HexISA replay, image walk and XLang's call sequence (TraceV)",
+  "text": "Symbol table = procedures of the layout once each at their entry (recovered from the image); trace line k = count, pc, mnemonic, "
+          "nibble and containing procedure of HexISA step k; offset-0 lines = main + XLang call sequence (as a bag when sibling operands "
+          "both call, since X leaves their order open).",
+  "note": "Trace text parsed by regex; programs limited to 20000 instructions."},
 }
